@@ -110,6 +110,7 @@ type Op struct {
 	WSMode     int     `json:",omitempty"` // websocket segmentation mode + 1 (0 = drawn from the network PRNG)
 	WSText     bool    `json:",omitempty"` // websocket: send text messages
 	StayOpen   bool    `json:",omitempty"` // do not close the connection after a failing CONNACK
+	AckDup     bool    `json:",omitempty"` // connect: now and then a PUBACK for a packet identifier that is not in use follows a real acknowledgement
 	CarryAcks  bool    `json:",omitempty"` // connect: acknowledgements held back on the previous connection are sent right behind CONNECT
 
 	// subscribe / unsubscribe
